@@ -37,7 +37,10 @@ def program_strategy() -> Any:
 @st.composite
 def programs(draw: Any) -> Dict[str, Any]:
     return draw(gen.flat_prog(min_sites=2, max_sites=8, max_deps=3, resources=gen.RES, dep_kinds=("pos", "kw"),
-                              n_setup=draw(st.integers(0, 4)), stamp_setup=True, prio_range=(-1, 2)))
+                              n_setup=draw(st.integers(0, 4)), stamp_setup=True, prio_range=(-1, 2),
+                              # without the constant site marker, setup sites that take no input are roots of the
+                              # graph: root selections (and setup nodes starved by them) become possible
+                              mark_roots=draw(st.booleans())))
 
 
 def _subset_flag(I: hist.Interp, ops: List[Dict[str, Any]]) -> bool:
